@@ -16,7 +16,7 @@ SPEC = ["Bng.Spec.C16Teardown", "Bng.Spec.C16TeardownMon", "Bng.Spec.C16Pppoe", 
 COMPS = [
     V.Component("pppoesrv", monitors=["residue", "conservation", "obs-roundtrip", "held-free", "pool-entry", "swept-active", "kept-idle"]),
     V.Component("teardown", monitors=["double-stop", "double-cleanup", "residue", "missing-stop", "stop-unstarted", "stop-before-end", "not-terminated", "double-padt", "stop-without-start", "ebpf-residue", "obs-roundtrip"]),
-    V.Component("submgr", monitors=["double-release", "double-end", "residue", "index-mismatch"]),
+    V.Component("submgr", monitors=["double-release", "double-end", "residue", "index-mismatch", "stranded"]),
 ]
 _extra = os.path.join(os.path.dirname(os.path.abspath(__file__)), "c16_dhcp.py")
 if os.path.exists(_extra):
@@ -41,7 +41,7 @@ ASSUME = [
     "RADIUS accounting is observed as the Stop records a real loopback accounting server accepts; the eBPF removal as the callback invocations",
     "the idle-sweep leak of the PPPoE server is the recorded finding KF-pppoe-idle-leak",
     "translator harness/cmd/extractpaths (go/ast, no type information): the table lists what is syntactically reachable inside the package (depth 4, calls resolved only through the receiver or a package-unique name); guards, order and arguments of the calls are not in the table - those are the models' and the correspondence runs' business",
-    "subscriber.Manager: TerminateSession calls are interleaved at the manager's unlock points (tbegin/tresume), and AssignAddress calls are held inside the allocator call between their two critical sections (abegin/aresume) with terminations, creates and other assignments in the window; the allocator stub parks the call BEFORE it picks the address (the manager cannot tell where inside the allocator call time passes). An AssignAddress that hands a LIVE session a second address lies outside Bng.SubMgr.Valid: the recorded finding KF-submgr-reassign-leak",
+    "subscriber.Manager: TerminateSession calls are interleaved at the manager's unlock points (tbegin/tresume), and AssignAddress calls are held inside the allocator call between their two critical sections (abegin/aresume) with terminations, creates and other assignments in the window; the allocator stub parks the call BEFORE it picks the address (the manager cannot tell where inside the allocator call time passes). An AssignAddress that hands a LIVE session a second address lies outside Bng.SubMgr.Valid: the recorded finding KF-submgr-reassign-leak; the allocator stub's ReleaseIPv4 / ReleaseIPv6 can be made to fail (fault rel4|rel6: it then keeps the address, as the real allocators do when their store fails): a failing release call lies outside Valid too, recorded finding KF-submgr-release-failed",
     "PPPoE server: a PAP exchange can be held inside the RADIUS call (authpark/authresume: the RADIUS stub keeps the Access-Request unanswered) with idle sweeps and hours passing in the window - the only things that run then, the server has ONE receive goroutine; Bng.PppoePark, Spec.C16PppoePark.park_projects. The instants inside the window are the sweep's critical section as a whole (SessionManager.mu)",
     "concurrent terminations of pppoe.SessionTeardown: one call can be held after it claimed the session (tpark/tresume), other calls run in the window",
     "pppoe.SessionTeardown with a failing eBPF-map callback (teardown `fault ebpf on|off|once`): the fast path is the harness's table of entries (one per session made, deleted by a callback call that returns nil); the callback is the only thing SessionTeardown knows of the kernel maps. A failed removal that is never retried is the recorded finding KF-pppoe-teardown-ebpf-noretry",
